@@ -134,36 +134,106 @@ MEP = Enum('MEP', [('N', BOOL), ('V', U8), ('W', BOOL)])
 MS = Struct('MS', [('f', BOOL), ('g', U8)])
 
 
-def rand_pat(rng, ty, depth, binds):
+def rand_pat(rng, ty, depth, binds, in_or=False):
+    """random pattern for ty; `binds`: list of (name, ty) introduced (names are unique per arm)"""
     k = rng.random()
-    if k < 0.22:
+    if k < 0.2:
         return PWild()
-    if k < 0.3 and isinstance(ty, (UInt, Bool)):
+    if k < 0.3 and isinstance(ty, (UInt, Bool)) and not in_or:
         nm = f'v{len(binds)}'
-        binds.append(nm)
+        binds.append((nm, ty))
         return PBind(nm)
+    if k < 0.42 and depth > 0 and not in_or and not isinstance(ty, Bool):
+        # or-pattern over arbitrary alternatives (may contain wildcards); optionally every alternative binds one variable
+        nalt = rng.randint(2, 3)
+        if rng.random() < 0.5:
+            leaf_tys = [t for t in leaf_types(ty) if isinstance(t, (UInt, Bool))]
+            if leaf_tys:
+                bt = rng.choice(leaf_tys)
+                nm = f'v{len(binds)}'
+                alts = []
+                for _ in range(nalt):
+                    a = pat_with_binding(rng, ty, nm, bt, depth)
+                    if a is None:
+                        break
+                    alts.append(a)
+                if len(alts) == nalt:
+                    binds.append((nm, bt))
+                    return POr(alts)
+        return POr([rand_pat(rng, ty, depth - 1, [], in_or=True) for _ in range(nalt)])
     if isinstance(ty, Bool):
         return PLit(BOOL, rng.choice([0, 1]))
     if isinstance(ty, UInt):
-        if rng.random() < 0.3:
-            return POr([PLit(ty, rng.choice([0, 1, 2, 3, 255])) for _ in range(rng.randint(2, 3))])
         return PLit(ty, rng.choice([0, 1, 2, 3, 255]))
     if isinstance(ty, Enum):
         vn, vt = rng.choice(ty.variants)
         if isinstance(vt, Unit):
-            p = PEnum(ty, vn)
-        else:
-            p = PEnum(ty, vn, rand_pat(rng, vt, depth - 1, binds) if depth > 0 else PWild())
-        if rng.random() < 0.2:
-            vn2, vt2 = rng.choice(ty.variants)
-            p2 = PEnum(ty, vn2) if isinstance(vt2, Unit) else PEnum(ty, vn2, PWild())
-            return POr([p, p2])
-        return p
+            return PEnum(ty, vn)
+        return PEnum(ty, vn, rand_pat(rng, vt, depth - 1, binds, in_or) if depth > 0 else PWild())
     if isinstance(ty, Tuple):
-        return PTuple([rand_pat(rng, t, depth - 1, binds) for t in ty.ts])
+        return PTuple([rand_pat(rng, t, depth - 1, binds, in_or) for t in ty.ts])
     if isinstance(ty, Struct):
-        return PStruct(ty, [rand_pat(rng, t, depth - 1, binds) for _, t in ty.fields])
+        if rng.random() < 0.35:
+            fs = [(f, t) for f, t in ty.fields if rng.random() < 0.5]
+            return PStructRest(ty, [(f, rand_pat(rng, t, depth - 1, binds, in_or)) for f, t in fs])
+        return PStruct(ty, [rand_pat(rng, t, depth - 1, binds, in_or) for _, t in ty.fields])
     return PWild()
+
+
+def leaf_types(ty):
+    if isinstance(ty, (UInt, Bool)):
+        return [ty]
+    if isinstance(ty, Tuple):
+        return [x for t in ty.ts for x in leaf_types(t)]
+    if isinstance(ty, Struct):
+        return [x for _, t in ty.fields for x in leaf_types(t)]
+    if isinstance(ty, Enum):
+        return [x for _, t in ty.variants for x in leaf_types(t)]
+    return []
+
+
+def pat_with_binding(rng, ty, name, bty, depth):
+    """a pattern for ty that binds `name` (of type bty) exactly once; other positions are literals/wildcards"""
+    if ty == bty and (depth <= 0 or rng.random() < 0.5 or isinstance(ty, (UInt, Bool))):
+        return PBind(name)
+    if isinstance(ty, Tuple):
+        idx = [i for i, t in enumerate(ty.ts) if bty in leaf_types(t)]
+        if not idx:
+            return None
+        j = rng.choice(idx)
+        return PTuple([pat_with_binding(rng, t, name, bty, depth - 1) if i == j else rand_pat(rng, t, 0, [], in_or=True) for i, t in enumerate(ty.ts)])
+    if isinstance(ty, Struct):
+        idx = [i for i, (_, t) in enumerate(ty.fields) if bty in leaf_types(t)]
+        if not idx:
+            return None
+        j = rng.choice(idx)
+        return PStruct(ty, [pat_with_binding(rng, t, name, bty, depth - 1) if i == j else rand_pat(rng, t, 0, [], in_or=True) for i, (_, t) in enumerate(ty.fields)])
+    if isinstance(ty, Enum):
+        vs = [(vn, vt) for vn, vt in ty.variants if bty in leaf_types(vt)]
+        if not vs:
+            return None
+        vn, vt = rng.choice(vs)
+        return PEnum(ty, vn, pat_with_binding(rng, vt, name, bty, depth - 1))
+    return None
+
+
+def arm_result(k, binds):
+    """distinct constant per arm plus every bound variable, so that wrong bindings are observable"""
+    e = Lit(U64, 1000 * (k + 1))
+    for n, t in binds:
+        term = IfE(Var(n), Lit(U64, 1), Lit(U64, 0)) if isinstance(t, Bool) else Cast(Var(n), U64)
+        e = Bin('+', e, term)
+    return e
+
+
+def has_rest(p):
+    if isinstance(p, PStructRest):
+        return True
+    if isinstance(p, (POr, PTuple, PStruct)):
+        return any(has_rest(x) for x in p.ps)
+    if isinstance(p, PEnum) and p.p is not None:
+        return has_rest(p.p)
+    return False
 
 
 def has_bind_in_or(p):
@@ -197,21 +267,27 @@ def match_programs(tier, seed):
         for _ in range(rng.randint(1, 5)):
             binds = []
             p = rand_pat(rng, ty, 2, binds)
-            arms.append(p)
+            arms.append((p, binds))
         if rng.random() < 0.55:
-            arms.append(PWild())
+            arms.append((PWild(), []))
         progs.append((f'm{i}', ty, arms))
     # hand-written corner cases
-    progs.append(('m_bool_full', BOOL, [PLit(BOOL, 1), PLit(BOOL, 0)]))
-    progs.append(('m_bool_miss', BOOL, [PLit(BOOL, 1)]))
-    progs.append(('m_enum_full', ME3, [PEnum(ME3, 'A'), POr([PEnum(ME3, 'B'), PEnum(ME3, 'C')])]))
-    progs.append(('m_enum_miss', ME3, [PEnum(ME3, 'A'), PEnum(ME3, 'C')]))
-    progs.append(('m_tuple_full', Tuple([BOOL, ME3]), [PTuple([PLit(BOOL, 1), PWild()]), PTuple([PLit(BOOL, 0), PEnum(ME3, 'A')]),
-                                                       PTuple([PWild(), POr([PEnum(ME3, 'B'), PEnum(ME3, 'C')])])]))
-    progs.append(('m_tuple_miss', Tuple([BOOL, ME3]), [PTuple([PLit(BOOL, 1), PWild()]), PTuple([PLit(BOOL, 0), PEnum(ME3, 'A')]),
-                                                       PTuple([PLit(BOOL, 1), POr([PEnum(ME3, 'B'), PEnum(ME3, 'C')])])]))
-    progs.append(('m_payload_full', MEP, [PEnum(MEP, 'N', PWild()), PEnum(MEP, 'V', PLit(U8, 0)), PEnum(MEP, 'V', PBind('k')), PEnum(MEP, 'W', PLit(BOOL, 1)), PEnum(MEP, 'W', PLit(BOOL, 0))]))
-    progs.append(('m_payload_miss', MEP, [PEnum(MEP, 'N', PLit(BOOL, 1)), PEnum(MEP, 'V', PLit(U8, 0)), PEnum(MEP, 'W', PWild())]))
+    progs.append(('m_bool_full', BOOL, [(p_, []) for p_ in [PLit(BOOL, 1), PLit(BOOL, 0)]]))
+    progs.append(('m_bool_miss', BOOL, [(p_, []) for p_ in [PLit(BOOL, 1)]]))
+    progs.append(('m_enum_full', ME3, [(p_, []) for p_ in [PEnum(ME3, 'A'), POr([PEnum(ME3, 'B'), PEnum(ME3, 'C')])]]))
+    progs.append(('m_enum_miss', ME3, [(p_, []) for p_ in [PEnum(ME3, 'A'), PEnum(ME3, 'C')]]))
+    progs.append(('m_tuple_full', Tuple([BOOL, ME3]), [(p_, []) for p_ in [PTuple([PLit(BOOL, 1), PWild()]), PTuple([PLit(BOOL, 0), PEnum(ME3, 'A')]),
+                                                       PTuple([PWild(), POr([PEnum(ME3, 'B'), PEnum(ME3, 'C')])])]]))
+    progs.append(('m_tuple_miss', Tuple([BOOL, ME3]), [(p_, []) for p_ in [PTuple([PLit(BOOL, 1), PWild()]), PTuple([PLit(BOOL, 0), PEnum(ME3, 'A')]),
+                                                       PTuple([PLit(BOOL, 1), POr([PEnum(ME3, 'B'), PEnum(ME3, 'C')])])]]))
+    progs.append(('m_payload_full', MEP, [(p_, []) for p_ in [PEnum(MEP, 'N', PWild()), PEnum(MEP, 'V', PLit(U8, 0)), PEnum(MEP, 'V', PBind('k')), PEnum(MEP, 'W', PLit(BOOL, 1)), PEnum(MEP, 'W', PLit(BOOL, 0))]]))
+    progs.append(('m_payload_miss', MEP, [(p_, []) for p_ in [PEnum(MEP, 'N', PLit(BOOL, 1)), PEnum(MEP, 'V', PLit(U8, 0)), PEnum(MEP, 'W', PWild())]]))
+    # or-patterns with an irrefutable alternative, overlapping binding alternatives, rest patterns
+    progs.append(('m_or_wild_u8', U8, [(PLit(U8, 1), []), (POr([PWild(), PLit(U8, 5)]), [])]))
+    progs.append(('m_or_wild_tuple', Tuple([U8, BOOL]), [(POr([PTuple([PWild(), PWild()]), PTuple([PLit(U8, 1), PLit(BOOL, 1)])]), []), (PWild(), [])]))
+    progs.append(('m_or_bind_overlap', Tuple([U8, U8]), [(POr([PTuple([PBind('x'), PLit(U8, 1)]), PTuple([PLit(U8, 1), PBind('x')]), PTuple([PBind('x'), PWild()])]), [('x', U8)])]))
+    progs.append(('m_rest_full', MS, [(PStructRest(MS, [('f', PLit(BOOL, 0))]), []), (PStruct(MS, [PWild(), PWild()]), [])]))
+    progs.append(('m_rest_bind', MS, [(PStructRest(MS, [('g', PLit(U8, 0))]), []), (PStructRest(MS, [('g', PBind('v'))]), [('v', U8)])]))
     return progs
 
 
@@ -222,16 +298,14 @@ def match_cases(tier, seed):
     cases, pre = [], []
     info = []
     for name, ty, arms in progs:
-        if any(has_bind_in_or(p) for p in arms):
-            continue
-        m = Match(Var('x'), [(p, Lit(U64, 100 + k)) for k, p in enumerate(arms)])
+        m = Match(Var('x'), [(p, arm_result(k, b)) for k, (p, b) in enumerate(arms)])
         src = ('script;\n\n' + decls_for(ty) + f'fn main(x: {ty.sway()}) -> u64 {{\n    {expr_sway(m, 1)}\n}}\n')
         # exhaustiveness by solver over the pattern predicates
         bs = [z3.BitVec(f'x_{i}', 8) for i in range(abi_size_fixed(ty))]
         v, valid, _ = abi_decode(bs, ty)
         s = z3.Solver()
         s.add(valid)
-        for p in arms:
+        for p, _b in arms:
             s.add(z3.Not(pattern_matches(p, v, ty, {})))
         r = s.check()
         exhaustive = r == z3.unsat
@@ -250,15 +324,16 @@ def match_cases(tier, seed):
         builts = list(ex.map(comp, info))
     for (name, ty, arms, src, exhaustive, witness), b in zip(info, builts):
         res = {'case': 'compile_' + name, 'status': 'held', 'queries': 1, 'sat': 0 if exhaustive else 1, 'unsat': 1 if exhaustive else 0, 'unknown': 0,
-               'solver_s': 0.0, 'paths': {}, 'violations': [], 'unexplored': [], 'engine_errors': [], 'nontrivial': True, 'replayed': 0, 'steps': 0, 'tags': ['match-compile']}
+               'solver_s': 0.0, 'paths': {}, 'violations': [], 'unexplored': [], 'engine_errors': [], 'nontrivial': True, 'replayed': 0, 'steps': 0,
+               'tags': ['match-compile'] + (['struct-rest-pattern'] if any(has_rest(p) for p, _b in arms) else [])}
         nonexh_msg = re.search(r'[Nn]on-exhaustive|not exhaustive', b.log) is not None
         if exhaustive and not b.ok:
             if nonexh_msg:
-                res['violations'].append({'what': 'exhaustive match rejected', 'patterns': [pat_sway(p) for p in arms], 'type': ty.sway(), 'log': b.log[-600:]})
+                res['violations'].append({'what': 'exhaustive match rejected', 'patterns': [pat_sway(p) for p, _b in arms], 'type': ty.sway(), 'log': b.log[-600:]})
             else:
                 res['unexplored'].append('build failed for another reason: ' + b.log[-300:])
         if (not exhaustive) and b.ok:
-            res['violations'].append({'what': 'non-exhaustive match accepted', 'patterns': [pat_sway(p) for p in arms], 'type': ty.sway(), 'uncovered_value_bytes': witness})
+            res['violations'].append({'what': 'non-exhaustive match accepted', 'patterns': [pat_sway(p) for p, _b in arms], 'type': ty.sway(), 'uncovered_value_bytes': witness})
         if (not exhaustive) and (not b.ok) and not nonexh_msg:
             res['unexplored'].append('rejected, but not with a non-exhaustiveness error: ' + b.log[-300:])
         if res['violations']:
@@ -267,7 +342,7 @@ def match_cases(tier, seed):
             res['status'] = 'partial'
         pre.append(res)
         if exhaustive and b.ok:
-            c = Case(name, src, note=f'match over {ty.sway()} with arms ' + ' | '.join(pat_sway(p) for p in arms), tags=['match-run'])
+            c = Case(name, src, note=f'match over {ty.sway()} with arms ' + ' ; '.join(pat_sway(p) for p, _b in arms), tags=['match-run'])
             c.pkg_name = (lambda name=name: 'c' + name)
 
             def make_inputs(ty=ty):
@@ -278,11 +353,11 @@ def match_cases(tier, seed):
             def spec(env, ty=ty, arms=arms):
                 sp = Spec({})
                 fr = Frame({'x': env['x']}, {'x': ty})
-                m = Match(Var('x'), [(p, Lit(U64, 100 + k)) for k, p in enumerate(arms)])
+                m = Match(Var('x'), [(p, arm_result(k, b)) for k, (p, b) in enumerate(arms)])
                 val = ev(m, fr, sp, z3.BoolVal(True))
                 return {'revert': z3.Not(env['valid']), 'ret': abi_encode(val, U64), 'logs': None, 'assume': z3.BoolVal(True)}
             c.make_inputs, c.spec = make_inputs, spec
-            c.sample = {'type': ty.sway(), 'arms': [pat_sway(p) for p in arms]}
+            c.sample = {'type': ty.sway(), 'arms': [pat_sway(p) for p, _b in arms]}
             cases.append(c)
     return cases, pre
 
